@@ -22,11 +22,13 @@ tvars == <<st, l, kf>>
 
 TInit == st = InitState /\ l = 1 /\ kf = FALSE
 
-ObsOK(s, e) == LET o == Observe(s) IN
-    /\ "recs" \in Scope => o.recs = e.recs
-    /\ "idx" \in Scope => o.idx = e.idx
-    /\ "shadow" \in Scope => o.shadow = e.shadow
-    /\ "lv" \in Scope => o.lv = e.lv
+\* (the components of Observe(s), each computed only when it is judged: sorting the entry keys of a record
+\* with a hundred declarations is expensive)
+ObsOK(s, e) ==
+    /\ "recs" \in Scope => Recs(s) = e.recs
+    /\ "idx" \in Scope => IdxKeys(s) = e.idx
+    /\ "shadow" \in Scope => ShadowKeys(s) = e.shadow
+    /\ "lv" \in Scope => s.lastVer = e.lv
 ProbesOK(s, e) == "probes" \in Scope =>
     /\ \A i \in 1..Len(e.gets) :
           LET g == e.gets[i] IN IdxGet(s, g.n, g.key, g.cmp) = [found |-> g.found, p |-> g.p, k |-> g.k]
